@@ -170,7 +170,11 @@ func (s *DDSketch) GetValueAtQuantile(quantile float64) (float64, error) {
 		return math.NaN(), errors.New("The quantile must be between 0 and 1.")
 	}
 
-	count := s.GetCount()
+	// The total counts of the stores are computed only once: a store whose
+	// total depends on the order in which it visits its bins (rounding) could
+	// otherwise return a rank that the comparisons below place in an empty store.
+	negativeValueCount := s.negativeValueStore.TotalCount()
+	count := s.zeroCount + s.positiveValueStore.TotalCount() + negativeValueCount
 	if count == 0 {
 		return math.NaN(), errEmptySketch
 	}
@@ -190,7 +194,6 @@ func (s *DDSketch) GetValueAtQuantile(quantile float64) (float64, error) {
 		rank = math.Nextafter(count, 0)
 	}
 
-	negativeValueCount := s.negativeValueStore.TotalCount()
 	if rank < negativeValueCount {
 		return -s.Value(s.negativeValueStore.KeyAtRank(negativeValueCount - 1 - rank)), nil
 	} else if rank < s.zeroCount+negativeValueCount {
